@@ -582,37 +582,52 @@ func checkLoaderAndFlags(p *Prog, r *Report, tr *ssa.Function, tpCall *ssa.Call)
 		r.Anchor("R17e", "goose.TranslatePackages")
 	} else {
 		r.Func(FuncName(tp))
-		loads := blockOfCall(p, tp, "golang.org/x/tools/go/packages.Load")
-		okL, why := false, "no packages.Load call"
-		if len(loads) == 1 {
-			c := loads[0]
-			cfgOK := false
-			if cc, ok := c.Call.Args[0].(*ssa.Call); ok && calleeOf(&cc.Call) == npc && len(cc.Call.Args) == 1 && cc.Call.Args[0] == ssa.Value(tp.Params[1]) {
-				cfgOK = true
-			}
-			patOK := c.Call.Args[1] == ssa.Value(tp.Params[2])
-			okL = cfgOK && patOK
-			why = fmt.Sprintf("config from newPackageConfig(modDir)=%v, patterns forwarded unchanged=%v", cfgOK, patOK)
+		// abstract paths of TranslatePackages with loading helpers spliced in; the configuration
+		// constructor and the per-package translation stay opaque events
+		keep := map[*ssa.Function]bool{}
+		if npc != nil {
+			keep[npc] = true
 		}
-		r.Check("R17e", "patterns and directory reach packages.Load unchanged", tp.Pos(), okL, why)
-		// zero matches is an error
-		rm := p.Rels(tp)
-		okZero := false
-		p.instrs(tp, func(b *ssa.BasicBlock, i int, in ssa.Instruction) {
-			ret, ok := in.(*ssa.Return)
-			if !ok {
-				return
+		if tpk := p.Func(Mod, "TranslationConfig.translatePackage"); tpk != nil {
+			keep[tpk] = true
+		}
+		ips, okp := p.ipathsKeeping(tp, keep)
+		okL, why, nLoad := okp, "", 0
+		okZero, nZero := okp, 0
+		for _, ip := range ips {
+			loads := ip.eventsOf("golang.org/x/tools/go/packages.Load")
+			if len(loads) > 1 {
+				okL, why = false, "packages.Load is called more than once on a path"
 			}
-			rs := p.RelsAt(rm, ret)
-			for k := range rs {
-				if strings.HasPrefix(k, "0 == len(") && strings.Contains(k, "packages.Load") {
-					if c, isC := ret.Results[2].(*ssa.Const); !isC || c.Value != nil {
-						okZero = true
+			for _, ld := range loads {
+				nLoad++
+				cfgOK := false
+				for _, e := range ip.Events {
+					if npc != nil && e.Callee == fullName(npc) && e.Key == ld.Args[0] && len(e.Args) == 1 && e.Args[0] == tp.Params[1].Name() {
+						cfgOK = true
+					}
+				}
+				patOK := len(ld.Args) == 2 && ld.Args[1] == tp.Params[2].Name()
+				if !cfgOK || !patOK {
+					okL = false
+					why = fmt.Sprintf("config from newPackageConfig(modDir)=%v, patterns forwarded unchanged=%v (packages.Load(%s))", cfgOK, patOK, strings.Join(ld.Args, ", "))
+				}
+				if ip.Exit == "return" && (ip.Rels[eqRel("0", "len("+ld.Key+"#0)")] || ip.Rels["len("+ld.Key+"#0) <= 0"]) {
+					nZero++
+					if len(ip.Ret) != 3 || ip.Ret[2] == "nil" {
+						okZero = false
 					}
 				}
 			}
-		})
-		r.Check("R17e", "matching no package is an error", tp.Pos(), okZero, "no return with a non-nil pattern error under the fact len(pkgs) == 0")
+			if ip.Exit == "return" && len(loads) == 0 {
+				okL, why = false, "a returning path of TranslatePackages does not load any package"
+			}
+		}
+		if nLoad == 0 {
+			okL, why = false, "no packages.Load call"
+		}
+		r.Check("R17e", "patterns and directory reach packages.Load unchanged", tp.Pos(), okL, why)
+		r.Check("R17e", "matching no package is an error", tp.Pos(), okZero && nZero > 0, fmt.Sprintf("%d returning paths under the fact len(pkgs) == 0; each must return a non-nil pattern error", nZero))
 	}
 	// flags
 	mainF := p.Func(cmdGoosePkg, "main")
